@@ -183,7 +183,8 @@ def run(chk):
     rows.append((f"CCQR(None).fit", f"g_ccqr_fit None {nf}", lambda: CCQR().fit(X.T.copy()), False))
     allq = np.arange(nf)
     for name, cq in (("", "OptNone"), ("exact_n", "OptExact"), ("max_n", "OptMax"), ("predetermined", "OptPredetermined"),
-                     ("bogus", "OptOther"), ("MAX_N", "OptOther"), ("exact", "OptOther")):
+                     ("bogus", "OptOther"), ("MAX_N", "OptOther"), ("exact", "OptOther"), (["max_n"], "OptOther"), ({"max_n": 1}, "OptOther"),
+                     (3, "OptOther"), (None, "OptOther"), (("max_n",), "OptOther")):
         rows.append((f"GQR.fit(constraint_option={name!r})", f"g_gqr_option {cq}",
                      lambda name=name: GQR().fit(X.T.copy(), idx_constrained=[1, 2], n_sensors=3, n_const_sensors=1, all_sensors=allq, constraint_option=name), True))
     # the same invalid request repeated on ONE optimizer object (fresh, and after a valid constrained fit) must be rejected every time
